@@ -210,3 +210,27 @@ def literal_elements(expr, scope_node):
                                 return list(s.value.args[0].elts)
             n = getattr(n, "_parent", None)
     return None
+
+
+PH_TAGS, PH_T0, PH_T1, PH_DETAILS = ("sym", "placeholder-tags"), ("sym", "t-first"), ("sym", "t-last"), ("sym", "placeholder-details")
+EMPTY_SET = ("set", ("empty",))
+
+
+def placeholder_runs(ctx, first=PH_T0, last=PH_T1, outcome="addSuccess"):
+    """Abstract runs of PlaceHolder.run against a symbolic result: -> (function, [call log of the result per normal
+    path], number of paths).  Entries are (method, positional values, keyword values)."""
+    from .. import effects
+    from ..absint import State
+    cls = ctx.classes.get(TESTCASE, "PlaceHolder")
+    f = cls.own_method("run")
+    if not isinstance(f, FUNC_TYPES):
+        raise AnalysisError("anchor vanished: PlaceHolder.run")
+    dom = effects.EffectDomain(ctx.classes, attrs={"self": ("self",), "self._tags": PH_TAGS, "self._timestamps": ("tuple", first, last), "self._outcome": ("const", outcome),
+                                                   "self._details": PH_DETAILS},
+                               results={"self._result": [("wobj", "res")]}, log_cap=20)
+    res = effects.run(ctx, dom, f, cls, {"result": ("sym", "given-result")}, state=State(), depth=4)
+    logs = []
+    for r in res:
+        if r.kind == "val":
+            logs.append([(n[4:], pos, kw) for n, pos, kw, tag in r.state.get("ev.calls", ()) if n.startswith("res.")])
+    return f, logs, len(res)
